@@ -1,6 +1,7 @@
 package main
 
 import (
+	"fmt"
 	"go/token"
 	"go/types"
 
@@ -26,6 +27,7 @@ func runC14(c *Ctx) {
 	c.rule("C14.1", func() { c14Limit(c) })
 	c.rule("C14.2", func() { c14Counters(c) })
 	c.rule("C14.3", func() { c14Server(c) })
+	c.rule("C14.3", func() { c14Encode(c) })
 	c.rule("C14.4", func() { c14Token(c) })
 }
 
@@ -287,6 +289,42 @@ func onlyFrom(v ssa.Value, ok func(ssa.Value) bool, depth int) bool {
 		}
 	}
 	return false
+}
+
+// c14Encode: the address bound into a token is the whole address.
+func c14Encode(c *Ctx) {
+	const R = "C14.3"
+	f := c.fn(hsk, "", "encodeRemoteAddr")
+	ipF := c.fld("net", "UDPAddr", "IP")
+	n := 0
+	eachInstr(f, func(i ssa.Instruction) {
+		r, ok := i.(*ssa.Return)
+		if !ok {
+			return
+		}
+		n++
+		cl, ok := retResults(r)[0].(*ssa.Call)
+		if !ok || builtinName(&cl.Call) != "append" {
+			c.Bad(R, "shape:encodeRemoteAddr returns prefix+address", c.P.InstrPos(i), "unexpected return shape")
+			return
+		}
+		arg := stripConv(cl.Call.Args[1])
+		// either the UDP address's IP field itself, or []byte(addr.String())
+		okv := Load(ipF)(arg)
+		if sc, isCall := arg.(*ssa.Call); isCall && sc.Call.IsInvoke() && sc.Call.Method.Name() == "String" {
+			okv = ParamV("remoteAddr")(sc.Call.Value)
+		}
+		if cv, isConv := cl.Call.Args[1].(*ssa.Convert); isConv {
+			if sc, isCall := cv.X.(*ssa.Call); isCall && sc.Call.IsInvoke() && sc.Call.Method.Name() == "String" {
+				okv = ParamV("remoteAddr")(sc.Call.Value)
+			}
+		}
+		c.Check(okv, R, fmt.Sprintf("shape:token binds the unmodified address #%d", n), c.P.InstrPos(i), "the bytes bound into (and compared with) a token are the complete IP / address string, not a prefix or normalisation of it")
+	})
+	c.Floor(R, "returns of encodeRemoteAddr", n, 2)
+	// both token constructors and the validator use encodeRemoteAddr
+	enc := c.obj(hsk, "", "encodeRemoteAddr")
+	c.checkCallers(R, enc, c.set([3]string{hsk, "TokenGenerator", "NewRetryToken"}, [3]string{hsk, "TokenGenerator", "NewToken"}, [3]string{hsk, "Token", "ValidateRemoteAddr"}), 3)
 }
 
 func c14Token(c *Ctx) {
